@@ -9,7 +9,10 @@ use crate::receiver::writer::{
 use crate::tools::error::{FluteError, Result};
 use std::collections::VecDeque;
 use std::rc::Rc;
+#[cfg(not(feature = "verif"))]
 use std::time::Instant;
+#[cfg(feature = "verif")]
+use crate::verif::Instant;
 use std::time::{Duration, SystemTime};
 
 #[cfg(feature = "opentelemetry")]
